@@ -1,7 +1,9 @@
 # C06 — rwlock / qrwlock: writers exclusive, readers shared, failed lock is a no-op.
 # Engines: E2 (`P` cases: reader/writer programs on the real scheduler under the virtual clock — this is the tie of the
 # BLOCKING paths rwlock::lock/unlock and qrwlock::lock(mode, timeout)/unlock: do_lock slow path, cv_unique/cv_shared, try_wake) and
-# E3 (`Q` cases: qrwlock's state word + spinlock, atomic-step schedules between OS threads; try_lock/unlock only).
+# E3 (`Q` cases: qrwlock's state word + spinlock, atomic-step schedules between OS threads; try_lock/unlock only;
+# `B` cases: the BLOCKING path lock(mode, timeout)/try_lock/unlock between OS threads with instrumented stand-ins of the scheduler entry
+# points behind cv_unique/cv_shared and a harness clock — harness/C06/qrw_e3b.cpp <-> coq/C06/C06_QE3B.v, notes/C06.md addendum 2).
 # Model: coq/C06 (fine-grained step functions; C06_E2.v runs them cooperatively over coq/Sched).
 import sys, stat
 from vlib import *
@@ -421,7 +423,9 @@ def gen_b_exhaustive(tier):
     # downgrade: W hold, unlock, re-lock R; a timed writer and a reader parked behind the W hold; the writer's timer = entry 4
     scripts = [['Lw', 'U', 'Lr', 'A', 'U'], ['Lw100', 'U'], ['Lr', 'U']]
     for w in _words('0124', 5 if q else 7): cs.append(b_case(scripts, w))
-    for w in _words('0124', 4 if q else 7): cs.append(b_case(scripts, '0' + '1' * 6 + '2' * 9 + w))      # both parked first, then every word
+    for w in _words('0124', 4 if q else 7):
+        cs.append(b_case(scripts, '01111122222' + w))              # both parked behind the W hold, then every word
+        cs.append(b_case(scripts, '0111112222200000000' + w))      # ... p0 has downgraded (only the writer was notified) and ticked
     return cs
 
 
@@ -807,11 +811,14 @@ class Check(DiffCheck):
             'deadlines fall inside a later hold, on an unlock instant or never, interrupts at parked waiters, probes of the state word and of the '
             'cv queues (q_waiters/rw_waiters); crowds of 3-6 waiters on both cvs behind a writer. '
             'Q cases (E3): exhaustive schedule prefixes + random bursty schedules of try_lock/unlock scripts over the atomic steps of lock_state/spin. '
+            'B cases (E3, blocking qrwlock path between OS threads: every atomic op on lock_state/spin, cv enqueue, notify, timer expiry is a scheduled '
+            'point): exhaustive schedule words / 4-segment schedules on 2-3 participants (last unlock vs a locker between failed fast path, spin and '
+            'enqueue; timer vs unlock; writer timing out while readers are parked; downgrade) + random bursty schedules with timer entries on 2-4. '
             'non-trivial = a reader and a writer section on the same lock in different threads')
     assumptions = ['sequential consistency', 'clients unlock only what they hold', 'fewer than 2^63-2 simultaneous read holds (int64 state)',
                    'mtx (photon::mutex) provides mutual exclusion (property C01)']
     trusted_base = ['E2 hooks H-clock/H-idle (repo_patches/E2-hooks.diff)']
-    partial_note = ('single-vCPU tie only (E2); the cross-vCPU windows of rwlock::unlock (F18) are model-level findings (witness schedules in Coq) '
+    partial_note = ('rwlock: single-vCPU tie only (E2); qrwlock: E2 + E3 (SC interleavings between OS threads, cv stand-ins); the cross-vCPU windows of rwlock::unlock (F18) are model-level findings (witness schedules in Coq) '
                     'that E2 cannot replay')
     case_timeout = 1500
 
